@@ -1,8 +1,13 @@
 package main
 
 import (
+	"bytes"
 	"encoding/json"
 	"fmt"
+	"go/ast"
+	"go/parser"
+	"go/printer"
+	"go/token"
 	"os"
 	"os/exec"
 	"path/filepath"
@@ -57,6 +62,12 @@ func replay(prop string, r *sym.CaseResult, v *sym.ViolationInfo, path string) s
 		ov["Replace"][filepath.Join(*repoDir, "zz_verif_"+strings.TrimPrefix(en.Name(), "zz_verif_"))] = filepath.Join(hdir, en.Name())
 	}
 	ov["Replace"][filepath.Join(*repoDir, "zz_verif_replay_test.go")] = testFile
+	// stubbed callees: overlay a copy of the declaring source file in which the real function is
+	// renamed and a forwarder with the original name calls the harness stub
+	if err := stubOverlay(work, r.Harness, ov["Replace"]); err != nil {
+		os.WriteFile(strings.TrimSuffix(path, ".json")+".native.txt", []byte("stub overlay failed: "+err.Error()), 0o644)
+		return "diverged"
+	}
 	ob, _ := json.Marshal(ov)
 	ovFile := filepath.Join(work, "overlay.json")
 	os.WriteFile(ovFile, ob, 0o644)
@@ -76,4 +87,109 @@ func replay(prop string, r *sym.CaseResult, v *sym.ViolationInfo, path string) s
 		return "confirmed"
 	}
 	return "diverged"
+}
+
+// harnessStubs is filled by main from the registry: harness func -> callee full name -> stub name
+var harnessStubs = map[string]map[string]string{}
+
+func stubOverlay(work, harness string, replace map[string]string) error {
+	stubs := harnessStubs[harness]
+	if len(stubs) == 0 {
+		return nil
+	}
+	type target struct{ recv, name, stub string }
+	var targets []target
+	for full, stub := range stubs {
+		// "(*pkg.T).m" or "pkg.f"
+		t := target{stub: stub}
+		if strings.HasPrefix(full, "(*") {
+			i := strings.Index(full, ").")
+			typ := full[2:i]
+			t.recv = typ[strings.LastIndexByte(typ, '.')+1:]
+			t.name = full[i+2:]
+		} else {
+			t.name = full[strings.LastIndexByte(full, '.')+1:]
+		}
+		targets = append(targets, t)
+	}
+	ents, err := os.ReadDir(*repoDir)
+	if err != nil {
+		return err
+	}
+	fset := token.NewFileSet()
+	for _, en := range ents {
+		if !strings.HasSuffix(en.Name(), ".go") || strings.HasSuffix(en.Name(), "_test.go") {
+			continue
+		}
+		fn := filepath.Join(*repoDir, en.Name())
+		f, err := parser.ParseFile(fset, fn, nil, parser.ParseComments)
+		if err != nil {
+			return err
+		}
+		changed := false
+		var extra []ast.Decl
+		for _, d := range f.Decls {
+			fd, ok := d.(*ast.FuncDecl)
+			if !ok {
+				continue
+			}
+			for _, t := range targets {
+				if fd.Name.Name != t.name {
+					continue
+				}
+				recv := ""
+				if fd.Recv != nil && len(fd.Recv.List) == 1 {
+					if se, ok := fd.Recv.List[0].Type.(*ast.StarExpr); ok {
+						if id, ok := se.X.(*ast.Ident); ok {
+							recv = id.Name
+						}
+					}
+				}
+				if recv != t.recv {
+					continue
+				}
+				// forwarder
+				var args []ast.Expr
+				if fd.Recv != nil {
+					if len(fd.Recv.List[0].Names) == 0 {
+						fd.Recv.List[0].Names = []*ast.Ident{ast.NewIdent("vfrecv")}
+					}
+					args = append(args, ast.NewIdent(fd.Recv.List[0].Names[0].Name))
+				}
+				for i, p := range fd.Type.Params.List {
+					if len(p.Names) == 0 {
+						p.Names = []*ast.Ident{ast.NewIdent("vfarg" + string(rune('a'+i)))}
+					}
+					for _, n := range p.Names {
+						args = append(args, ast.NewIdent(n.Name))
+					}
+				}
+				call := &ast.CallExpr{Fun: ast.NewIdent(t.stub), Args: args}
+				var body *ast.BlockStmt
+				if fd.Type.Results != nil && len(fd.Type.Results.List) > 0 {
+					body = &ast.BlockStmt{List: []ast.Stmt{&ast.ReturnStmt{Results: []ast.Expr{call}}}}
+				} else {
+					body = &ast.BlockStmt{List: []ast.Stmt{&ast.ExprStmt{X: call}}}
+				}
+				fw := &ast.FuncDecl{Recv: fd.Recv, Name: ast.NewIdent(t.name), Type: fd.Type, Body: body}
+				extra = append(extra, fw)
+				fd.Name = ast.NewIdent(t.name + "__real")
+				fd.Doc = nil
+				changed = true
+			}
+		}
+		if changed {
+			f.Decls = append(f.Decls, extra...)
+			var buf bytes.Buffer
+			if err := printer.Fprint(&buf, fset, f); err != nil {
+				return err
+			}
+			out := filepath.Join(work, "stubbed_"+en.Name())
+			if err := os.WriteFile(out, buf.Bytes(), 0o644); err != nil {
+				return err
+			}
+			replace[fn] = out
+		}
+	}
+	return nil
 }
